@@ -54,6 +54,7 @@ type Contract struct {
 	HasMod    bool
 	LoopInv   map[int][]Clause
 	LoopDec   map[int][]Clause
+	LoopFrame map[int][]string // "loop N frame locs": everything else is unchanged since function entry
 	MayPanic  bool
 	Extern    bool
 	Trusted   bool // contract assumed, body not verified (internal function marked "assume")
@@ -345,6 +346,18 @@ func (db *SpecDB) LoadFile(path, pkgPath string) error {
 				cur.LoopInv[n] = append(cur.LoopInv[n], Clause{Kind: w3, Text: r3, Loop: n, File: path, Line: ln, Name: lbl})
 			case "decreases":
 				cur.LoopDec[n] = append(cur.LoopDec[n], Clause{Kind: w3, Text: r3, Loop: n, File: path, Line: ln})
+			case "frame":
+				if cur.LoopFrame == nil {
+					cur.LoopFrame = map[int][]string{}
+				}
+				for _, m := range splitTop(r3) {
+					if m = strings.TrimSpace(m); m != "" {
+						cur.LoopFrame[n] = append(cur.LoopFrame[n], m)
+					}
+				}
+				if _, ok := cur.LoopFrame[n]; !ok {
+					cur.LoopFrame[n] = []string{}
+				}
 			default:
 				return fmt.Errorf("%s:%d: unknown loop clause %q", path, ln, w3)
 			}
